@@ -133,12 +133,16 @@ def _holds(rel, tol=0) -> Optional[bool]:
     return None
 
 
+_LAST_GEN: list = [None]  # the generator of the shape being discharged (its input names survive a timeout of the real code)
+
+
 def discharge(law: Law, shape, pid: str, replay_ref: str) -> Ob:
     """One obligation: the clause holds for every real value of the generic inputs, for this shape."""
     name = f"{pid}/{law.name}/shape{_shape_str(shape)}"
     t0 = time.time()
     deg0 = _DEG_COUNT[0]
     gen = GenericGen()
+    _LAST_GEN[0] = gen
     try:
         case = law.build(shape, gen)
     except Exception as e:
@@ -364,7 +368,7 @@ def degenerate_failure(law: Law, shape, names, assum):
     return None
 
 
-def find_failing_point(law: Law, shape, names, rng, tries=60, assum=None):
+def find_failing_point(law: Law, shape, names, rng, tries=60, assum=None, symbolic=True):
     assum = assum or {}
     for _ in range(tries):
         pt = {n: sp.Rational(rng.randint(-9, 9), rng.randint(1, 4)) for n in names}
@@ -395,7 +399,7 @@ def find_failing_point(law: Law, shape, names, rng, tries=60, assum=None):
         if bad:
             return pt
     # nothing fails on numbers: run the real code on symbols and substitute afterwards
-    for _ in range(12):
+    for _ in range(12 if symbolic else 0):
         pt = {n: sp.Rational(rng.randint(-9, 9), rng.randint(1, 4)) for n in names}
         for n in names:
             a = assum.get(n, {})
@@ -462,7 +466,60 @@ def replay_law(replay_ref: str, law_name: str, shape, pt):
         assert abs(complex(sp.N(v, 30))) <= 1e-12, f"{law_name} shape {shape}: residual {v} != 0 at {pt}"
 
 
+SHAPE_LIMIT_S = int(os.environ.get("VERIF_SHAPE_TIMEOUT", "420"))
+
+
+class _ShapeTimeout(BaseException):
+    pass
+
+
 def _worker(args):
+    """One shape of one law, under a wall-clock limit: the real code under contract may not terminate (a changed integrand that
+    SymPy cannot integrate); that is reported as UNDECIDED for this shape (never a verdict) and the run goes on."""
+    import signal
+
+    def on_alarm(signum, frame):
+        raise _ShapeTimeout()
+
+    old = signal.signal(signal.SIGALRM, on_alarm)
+    signal.setitimer(signal.ITIMER_REAL, SHAPE_LIMIT_S)
+    try:
+        return _worker_inner(args)
+    except _ShapeTimeout:
+        modname, law_name, shape, pid = args[:4]
+        plain = len(args) > 4 and args[4]
+        name = f"{pid}/{law_name}/shape{_shape_str(shape)}" + ("/plain-symbols" if plain else "")
+        # symbolic execution did not finish.  The clause can still be REFUTED by a concrete input on which the real code does finish
+        # and gives a non-zero residual (numbers instead of generic symbols); nothing else is concluded from a timeout.
+        gen = _LAST_GEN[0]
+        if gen is not None and gen.names and not plain:
+            signal.setitimer(signal.ITIMER_REAL, max(60, SHAPE_LIMIT_S // 2))
+            try:
+                import importlib
+                law = next(l for l in importlib.import_module(modname).laws() if l.name == law_name)
+                pt = find_failing_point(law, shape, gen.names, random.Random(seed() * 7919 + 17), tries=4, assum=gen.assum, symbolic=False)
+                if pt is not None:
+                    ob = Ob(name, REFUTED, "exec-point", SHAPE_LIMIT_S * 1000.0,
+                            f"generic execution did not finish within {SHAPE_LIMIT_S}s; at the concrete input "
+                            f"{({k: str(v) for k, v in pt.items()})} the real functions finish and the clause fails", _shape_str(shape))
+                    ob.replay = {"reproduced": True, "inputs": {k: str(v) for k, v in pt.items()},
+                                 "script": _replay_script(modname, law_name, shape, pt)}
+                    return ob
+            except _ShapeTimeout:
+                pass
+            except Exception:  # noqa: BLE001
+                pass
+            finally:
+                signal.setitimer(signal.ITIMER_REAL, 0)
+        return Ob(name, UNKNOWN, "symx", SHAPE_LIMIT_S * 1000.0,
+                  f"the real code / the discharge of this shape did not finish within {SHAPE_LIMIT_S}s: undecided (not a verdict)",
+                  _shape_str(shape))
+    finally:
+        signal.setitimer(signal.ITIMER_REAL, 0)
+        signal.signal(signal.SIGALRM, old)
+
+
+def _worker_inner(args):
     modname, law_name, shape, pid = args[:4]
     plain = len(args) > 4 and args[4]
     import importlib
